@@ -62,7 +62,7 @@ inductive Ev
   | cwret
   | poll (i b : Nat) (snap : List Char)
   | final (i b k : Nat) (rc : Int) (same : Nat)
-  | fin
+  | fin (needSig : Bool)
 
 structure V (ga : Nat → Int) where
   m : Walk ga
@@ -281,7 +281,7 @@ def feed {ga : Nat → Int} (v : V ga) : Ev → R ga
     else if same ≠ 1 then .error s!"item {b}.{k}: ar_result differs from getaddrinfo's answer"
     else if v.finals.contains (b, k) then .error "final read twice"
     else .ok { v with finals := (b, k) :: v.finals }
-  | .fin => do
+  | .fin needSig => do
     let v ← flush v .w
     let s := v.m.s
     if !(v.begun.all fun b => s.spc (b / 100) == .idle) then .error "a submitter is still inside getaddrinfo_a"
@@ -291,7 +291,7 @@ def feed {ga : Nat → Int} (v : V ga) : Ev → R ga
     else if !(v.begun.all fun b => s.notified b == 1) then .error "a batch without exactly one notification step"
     else if !(v.begun.all fun b => s.sevOf b == .none || v.notifEv.count b == 1) then
       .error "a batch without exactly one delivered notification"
-    else if !(v.begun.all fun b => s.sevOf b != .signal || v.sigrecvd.contains b) then
+    else if !(v.begun.all fun b => !needSig || s.sevOf b != .signal || v.sigrecvd.contains b) then
       .error "a signal notification was not received"
     else if !(v.begun.all fun b => (List.range (s.nOf b)).all fun k =>
         s.resolved b k == 1 && v.finals.contains (b, k)) then
